@@ -121,6 +121,15 @@ def _threading(ctx, P):
                     got = p[5]
                     if not (isinstance(got, dict) and list(got) == [AY] and isinstance(got[AY], Obj) and got[AY].name == "vpartner"):
                         bad = f"pad() receives other_component={got!r} instead of the caller's dictionary"
+                    else:
+                        # the partner's values are what is spliced into the halo: they reach pad() as given
+                        from ..harness import foreign_ops
+
+                        changing, unknown_ops = foreign_ops(got[AY].eff)
+                        if unknown_ops:
+                            raise Unmodelled(f"operation(s) {unknown_ops} on the partner component")
+                        if changing:
+                            bad = f"the partner component reaches pad() after {changing}: the values spliced into the halo across an axis-swapping link are no longer the partner's (a cast to the other component's type truncates / rounds them)"
             if bad:
                 ctx.report("R04.2", app, inst, bad)
             else:
